@@ -73,7 +73,7 @@ func (x *bb) raw(p []byte) *bb   { x.b = append(x.b, p...); return x }
 func (x *bb) vec8(p []byte) *bb  { return x.u8(len(p)).raw(p) }
 func (x *bb) vec16(p []byte) *bb { return x.u16(len(p)).raw(p) }
 
-func u16sBytes(xs []int) []byte {
+func u16sBytes_c31(xs []int) []byte {
 	x := &bb{}
 	for _, v := range xs {
 		x.u16(v)
@@ -81,7 +81,7 @@ func u16sBytes(xs []int) []byte {
 	return x.b
 }
 
-func randU16s(r *Rng, n int) []int {
+func randU16s_c31(r *Rng, n int) []int {
 	out := make([]int, n)
 	for i := range out {
 		out[i] = Pick(r, []int{0x1301, 0x1302, 0xc02b, 0xc02f, 29, 23, 24, 0x0403, 0x0804, 0x0304, 0x0303, 0x0a0a, 0x1a1a, r.Intn(65536)})
@@ -126,7 +126,7 @@ func genExtBody(r *Rng, id int, bad bool) []byte {
 		return x.b
 	case 10, 13, 50: // u16 lists with a 2-byte length
 		n := 1 + r.Intn(5)
-		body := u16sBytes(randU16s(r, n))
+		body := u16sBytes_c31(randU16s_c31(r, n))
 		if bad {
 			body = Pick(r, [][]byte{{}, body[:len(body)-1]})
 		}
@@ -160,7 +160,7 @@ func genExtBody(r *Rng, id int, bad bool) []byte {
 		}
 		return x.vec16(l.b).b
 	case 43: // supported_versions
-		body := u16sBytes(randU16s(r, 1+r.Intn(4)))
+		body := u16sBytes_c31(randU16s_c31(r, 1+r.Intn(4)))
 		if bad {
 			body = Pick(r, [][]byte{{}, body[:len(body)-1]})
 		}
@@ -213,12 +213,12 @@ func genExtBody(r *Rng, id int, bad bool) []byte {
 	return r.Bytes(Pick(r, []int{0, 1, 1, 3, 30}))
 }
 
-var knownExtIDs = []int{0, 5, 10, 11, 35, 13, 50, 65281, 23, 16, 18, 43, 44, 51, 42, 45, 57, 0xfe0d}
+var knownExtIDs_c31 = []int{0, 5, 10, 11, 35, 13, 50, 65281, 23, 16, 18, 43, 44, 51, 42, 45, 57, 0xfe0d}
 var unknownExtIDs = []int{21, 17513, 17613, 27, 28, 34, 24, 13172, 30032, 0x0a0a, 0x1a1a, 0xfafa, 17, 49, 1234}
 
 func buildHello(vers int, random, sid []byte, suites []int, comps []byte, exts []hext, withExts bool, trailer []byte) []byte {
 	body := &bb{}
-	body.u16(vers).raw(random).vec8(sid).vec16(u16sBytes(suites)).vec8(comps)
+	body.u16(vers).raw(random).vec8(sid).vec16(u16sBytes_c31(suites)).vec8(comps)
 	if withExts {
 		eb := &bb{}
 		for _, e := range exts {
@@ -233,14 +233,14 @@ func buildHello(vers int, random, sid []byte, suites []int, comps []byte, exts [
 func genHelloBytes(r *Rng) []byte {
 	vers := Pick(r, []int{0x0303, 0x0303, 0x0301, 0x0302, 0x0304})
 	sid := r.Bytes(Pick(r, []int{0, 32, 32, 1}))
-	suites := randU16s(r, 1+r.Intn(8))
+	suites := randU16s_c31(r, 1+r.Intn(8))
 	if r.Intn(3) == 0 {
 		suites = append(suites, 0x00ff)
 	}
 	comps := Pick(r, [][]byte{{0}, {0}, {1, 0}, {}})
 	var exts []hext
 	badOne := r.Intn(6) == 0
-	ids := append([]int{}, knownExtIDs...)
+	ids := append([]int{}, knownExtIDs_c31...)
 	for k := len(ids) - 1; k > 0; k-- {
 		j := r.Intn(k + 1)
 		ids[k], ids[j] = ids[j], ids[k]
